@@ -199,3 +199,69 @@ func streamC17gw(env *runEnv) {
 		}
 	}
 }
+
+func init() { streams["c16gw"] = streamC16gw }
+
+// streamC16gw: the tunnel-authorization response of the real binary for configurations of the seven
+// redirection switches and the idle timeout, given by file or by environment: what main() and
+// config.Load make of the switches is what the client is told.
+func streamC16gw(env *runEnv) {
+	if rdpgwBinary == "" {
+		return
+	}
+	r := rand.New(rand.NewSource(env.seed + 16))
+	basic := "Basic " + base64.StdEncoding.EncodeToString([]byte("1:pw1"))
+	redirs := []string{"0000000", "1000000", "0100000", "0010000", "0001000", "0000100", "0000010", "0000001", "1111100", "0100100", "1011000", "0000011", "1111111"}
+	if env.thorough() {
+		for i := 0; i < 24; i++ {
+			b := make([]byte, 7)
+			for k := range b {
+				b[k] = "01"[r.Intn(2)]
+			}
+			redirs = append(redirs, string(b))
+		}
+	}
+	idles := []int{0, 30, -1, 1, 2147483, 0, 5, 0, 0, 0, 60, 0, 0}
+	for ci, rd := range redirs {
+		dir := filepath.Join(env.workdir, fmt.Sprintf("c16gw-%d", ci))
+		mkdirAll(dir)
+		idle := idles[ci%len(idles)]
+		sock := filepath.Join(dir, "a.sock")
+		gc := gwConfig{authSet: true, auth: []string{"local"}, hosts: []string{"10.9.8.7:3389"}, hostSelection: "roundrobin",
+			tokenAuth: bp(false), redir: rd, idle: &idle, authSocket: sock}
+		gc.certFile, gc.keyFile = selfSigned(dir)
+		fa := newFakeAuth(sock, map[string]string{"1": "pw1"})
+		yaml, ev := gc.render([]string{"file", "env", "split"}[ci%3])
+		g, ok := startGateway(dir, yaml, ev, true)
+		if !ok {
+			panic("C16 gw: gateway did not start: " + g.logs())
+		}
+		for _, tr := range []string{"ws", "legacy"} {
+			pk := [][]byte{
+				packet(ptHandshake, handshakeBody(1, 0, 0, 0)),
+				packet(ptTunnelCreate, tunnelCreateBody(uint32(r.Intn(64)), "", false)),
+				packet(ptTunnelAuth, tunnelAuthBody("pc")),
+			}
+			res := runTunnel(g, tunnelScript{transport: tr, id: fmt.Sprintf("{c16gw-%d-%s}", ci, tr), packets: pk, auth: basic, end: "close"})
+			obs := "ERR:" + res.err
+			if res.err == "" {
+				var rs []string
+				for _, m := range res.responses {
+					rs = append(rs, hx(m))
+				}
+				if len(rs) == 0 {
+					rs = []string{"-"}
+				}
+				obs = strings.Join(rs, ",")
+			}
+			env.count("c16gw." + tr)
+			var its []string
+			for _, p := range pk {
+				its = append(its, hx(p))
+			}
+			env.emit("tunnelauthgw", rd, strconv.Itoa(idle), strings.Join(its, ","), obs)
+		}
+		g.stop()
+		fa.stop()
+	}
+}
